@@ -1156,6 +1156,19 @@ example : connFeedAll ⟨.asyncio, .server, [1], 15, 16777216⟩ Phase.init
       [[0x7F], [], [0x11, 0], [0, 0, 0, 0, 1], [0x41, 0]]
     = (.established ⟨[0], none⟩, [.written [0x7F, 0xF1, 0, 0], .attach 1 1024, .string [0x41]]) := by decide
 -- aio_delivers / tw_delivers: settled tails
+/-- `aio_serves`: a message, a PING, a PONG, another message, then an unfinished frame — cut through headers and payloads -/
+example : (∀ f ∈ [(0, [65]), (1, [66, 67]), (2, [68]), (0, [])], f.1 ≤ 2 ∧ f.2.length ≤ 100 ∧ f.2.length < 16777216) ∧
+    Settled (aioFraming 100) [1, 0, 0] := by
+  refine ⟨by decide, ?_⟩; unfold Settled; decide
+example : feedAll (aioFraming 100) (some PSt.init) [[0, 0, 0], [1, 65, 1, 0, 0, 2, 66], [67, 2, 0, 0, 1, 68, 0, 0, 0], [0, 1, 0, 0]]
+    = (some ⟨[1, 0, 0], none⟩, [.string [65], .written [2, 0, 0, 2, 66, 67], .string []]) := by decide
+/-- `rs_never_raises`: handshake, PING and an ill-typed frame in one read (asyncio server); an over-long header (Twisted client) -/
+example : connFeedAll ⟨.asyncio, .server, [1], 15, 16777216⟩ Phase.init [[0x7F, 0x11, 0, 0, 1, 0, 0, 1, 0x41, 7, 0, 0, 0]]
+    = (.dead, [.written [0x7F, 0xF1, 0, 0], .attach 1 1024, .written [2, 0, 0, 1, 0x41], .tclose .close]) := by decide
+example : connFeedAll ⟨.twisted, .client, [1], 0, 512⟩ Phase.init [[0x7F, 0xF1], [0, 0, 0, 0, 2], [1]]
+    = (.dead, [.attach 1 16777216, .tclose .abort]) := by decide
+/-- `rs_send_delivered`: three octets to a peer that announced 512 -/
+example : send .asyncio 512 [1, 2, 3] = .sent [0, 0, 0, 3, 1, 2, 3] ∧ send .twisted 512 [1, 2, 3] = .sent [0, 0, 0, 3, 1, 2, 3] := by decide
 example : Settled (aioFraming 100) [0, 0, 0] := by unfold Settled; decide
 example : Settled (aioFraming 100) [0, 0, 0, 5, 1, 2] := by unfold Settled; decide
 example : Settled (twFraming 512) [0, 0, 2] := by unfold Settled; decide
